@@ -41,3 +41,19 @@ Proof.
   - rewrite <- (spec_iter_strip r L d Hm). exact H.
   - rewrite (spec_iter_strip r L d Hm). exact H.
 Qed.
+
+(* non-vacuity: rrule(HOURLY, dtstart=datetime(2023,12,31,17,0), interval=5, byweekday=(MO(+2), WE), count=4): the
+   numeric prefix is ignored *)
+Definition raw_hourly_nth_example : raw :=
+  mkRaw HOURLY false 2023 12 31 17 0 0 5 0 (Some 4) None false
+        None None None None None None (Some [(0, 2); (2, 0)]) None None None.
+Example hourly_nth_example :
+  sfam_all raw_hourly_nth_example HOURLY /\ plain_only raw_hourly_nth_example = false /\
+  match normalize raw_hourly_nth_example with
+  | Ok rl => fst (iterate rl 100 60) =
+             [(ord_of_ymd 2024 1 1, 10800); (ord_of_ymd 2024 1 1, 28800); (ord_of_ymd 2024 1 1, 46800);
+              (ord_of_ymd 2024 1 1, 64800)] /\
+             fst (iterate rl 100 60) = fst (spec_iter raw_hourly_nth_example 100 60)
+  | Err _ => False
+  end.
+Proof. split; [constructor; reflexivity|split; [reflexivity|vm_compute; split; reflexivity]]. Qed.
